@@ -31,12 +31,15 @@ def regenerate_all():
         translate_alias()
     except Broken as b:
         ALIAS_BROKEN = b
-    from lib import drvgen, apigen
+    from lib import drvgen, apigen, reggen, enumgen, blehgen
     drvgen.translate()
     apigen.translate()
+    reggen.translate()
+    enumgen.translate()
     from lib import blegen
     BLE_BROKEN = None
     try:
         blegen.translate()
     except Broken as b:
         BLE_BROKEN = b
+    blehgen.translate()   # after the decoders: the handler calls the translated solar-charger decoder
